@@ -72,6 +72,9 @@ def fkey(f):
     return struct.pack('>d', f).hex()
 
 
+_ON_PATH = set()
+
+
 def deep(v, path, nodes):
     """canonical structure of a host value; `nodes` collects (path, object) for every container object"""
     t = type(v)
@@ -79,6 +82,16 @@ def deep(v, path, nodes):
         return (t.__name__, v)
     if t is float:
         return ('float', fkey(v))
+    if id(v) in _ON_PATH or len(path) > 60:
+        return ('cycle', t.__name__, id(v))          # a container that (now) contains itself
+    _ON_PATH.add(id(v))
+    try:
+        return deep1(v, t, path, nodes)
+    finally:
+        _ON_PATH.discard(id(v))
+
+
+def deep1(v, t, path, nodes):
     if t is list or t is tuple:
         nodes.append((path, v))
         return (t.__name__, tuple(deep(x, path + (i,), nodes) for i, x in enumerate(v)))
@@ -517,7 +530,11 @@ class Plan:
                 if adm:
                     self.admits[n] = adm
                 fill = None
-                order = (['one', 'str_a', 'true', 'float', 'dt', 'td', 'regex', 'none'] if not adm else [])
+                # a position that admits scalars gets a scalar by default (keys, indexes, values); the container
+                # variants come from `fills` in sweep_cases
+                order = ['one', 'str_a', 'true', 'float', 'dt', 'td', 'regex', 'none']
+                self.scalars = getattr(self, 'scalars', {})
+                self.scalars[n] = [x for x in ('one', 'str_a', 'zero', 'none') if passes(vt, SCALARS[x](), world.root, eng)]
                 for s in order:
                     if passes(vt, SCALARS[s](), world.root, eng):
                         fill = ('data', SCALARS[s])
@@ -598,7 +615,7 @@ def build_case(plan, target, vname, lam, method, variant, fill=None, source='dat
         if kind == 'rule':
             return '1 => 2'
         if n in fill:
-            return slot(VALUES[fill[n]], kind)
+            return slot(VALUES[fill[n]] if fill[n] in VALUES else SCALARS[fill[n]], kind)
         return slot(x, kind)
 
     names = [n for n, _ in plan.pos]
@@ -663,9 +680,15 @@ def sweep_cases(world, rng, tier, focus):
             others = [n for n in plan.admits if n != target and plan.filler.get(n, (None,))[0] == 'data']
             fills = [None]
             if others:
-                # the other collection positions: values disjoint from the target's and values overlapping with it
-                fills = [None, {n: next((OVERLAP[k] for k in ('list', 'dict', 'set') if OVERLAP[k] in plan.admits[n]),
-                                        plan.admits[n][0]) for n in others}]
+                # the other positions that admit containers: the default (a scalar where the type admits one), the
+                # string 'a' (a key that exists in the dict shapes), containers overlapping with the target's values,
+                # containers disjoint from them
+                fills = [None,
+                         {n: ('str_a' if 'str_a' in plan.scalars.get(n, ()) else plan.admits[n][0]) for n in others},
+                         {n: next((OVERLAP[k] for k in ('list', 'dict', 'set') if OVERLAP[k] in plan.admits[n]),
+                                  plan.admits[n][0]) for n in others},
+                         {n: next((f for f in ('fill_list', 'fill_dict', 'fill_set') if f in plan.admits[n]),
+                                  plan.admits[n][0]) for n in others}]
                 if key in focus:
                     for _ in range(40):
                         fills.append({n: rng.choice(plan.admits[n]) for n in others})
@@ -729,6 +752,42 @@ def random_value(rng, adm):
     return name
 
 
+SIMPLER = {list: [[], [1], ['a'], [[1]], [2, 1], [{'a': 1}], [[1], [2]]],
+           dict: [{}, {'a': 1}, {'a': [1]}, {'a': {'b': 1}}, {'a': 1, 'b': 2}],
+           set: [set(), {1}, {'a'}, {1, 2}],
+           tuple: [(), ([1],)]}
+
+
+def shrink_sweep(world, c, key, bare):
+    """smaller data / default options on which the same oracle still fails"""
+    data = materialise(c['data'])
+    opts = list(c['opts'])
+
+    def fails_with(d, o, b):
+        out, fails = observe(world, c['text'], copy.deepcopy(d), c['mode'], bare=b, eopts=dict(t2l=o[0], s2l=o[1]))
+        for k, what in fails:
+            if k == key:
+                return what
+        return None
+    what = fails_with(data, opts, bare)
+    if what is None:
+        return data, opts, bare, 'not reproducible on a second run'
+    if opts != [True, False] and fails_with(data, [True, False], bare):
+        opts = [True, False]
+    if bare and fails_with(data, opts, False):
+        bare = False
+    for slot in sorted(data):
+        for cand in SIMPLER.get(type(data[slot]), []):
+            if len(repr(cand)) >= len(repr(data[slot])):
+                continue
+            trial = dict(data)
+            trial[slot] = cand
+            if fails_with(trial, opts, bare):
+                data = trial
+                break
+    return data, opts, bare, fails_with(data, opts, bare) or what
+
+
 def materialise(data):
     return {k: mk() for k, mk in data.items()}
 
@@ -781,7 +840,7 @@ def run_pool(world, res, rng, tier, hist):
         t2l, s2l = pick_opts(rng)
         hv = [1, [2, 3]]
         shared = host_chain(world.root, hv)
-        texts = rng.sample(POOL, 12 if tier == 'quick' else 25)
+        texts = list(POOL)
         stmts = {}
         for t in texts:
             try:
@@ -793,8 +852,9 @@ def run_pool(world, res, rng, tier, hist):
         objs = ctx_objects(shared)
         cb = ctx_snapshot(objs, world.lib_ids)
         steps = []
-        for i in range(40 if tier == 'quick' else 120):
-            t = rng.choice(list(stmts))
+        order = list(stmts) * 2
+        rng.shuffle(order)
+        for t in order:
             di = rng.randrange(len(docs))
             r = rng.random()
             if r < 0.25:
@@ -1421,7 +1481,7 @@ def run(env, res):
     hist['sweep-cases'] = len(cases)
     entered = set()
     first_fail = None
-    budget = 55 if tier == 'quick' else 400
+    budget = 50 if tier == 'quick' else 400
     order = list(range(len(cases)))
     rng.shuffle(order)          # a budget cut drops a random subset, not the tail of the alphabet
     if focus:
@@ -1450,14 +1510,14 @@ def run(env, res):
         k = 'sweep-' + ('ok' if out[0] == 'ok' else out[1]) + ('' if reached else '-unreached')
         hist[k] = hist.get(k, 0) + 1
         hist['sweep-mode-' + ('conv' if c['mode'] else 'raw')] = hist.get('sweep-mode-' + ('conv' if c['mode'] else 'raw'), 0) + 1
-        for key, what in fails:
-            if first_fail is None:
-                first_fail = True
+        if fails:
+            key = fails[0][0]
+            sdata, sopts, sbare, what = shrink_sweep(world, c, key, bare)
             res.fail('oracle', key, '%s: %s (expression %s, yaql.convertInputData=%s, data %s)' % (
-                c['fn'], what, c['text'], c['mode'], pyrepr(materialise(c['data']))) + (
-                    '' if c['opts'] == [True, False] else ' [convertTuplesToLists=%s convertSetsToLists=%s]' % tuple(c['opts'])),
-                dict(part='sweep', fn=c['fn'], text=c['text'], mode=c['mode'], bare=bare, opts=c['opts'],
-                     data=pyrepr(materialise(c['data']))))
+                c['fn'], what, c['text'], c['mode'], pyrepr(sdata)) + (
+                    '' if sopts == [True, False] else ' [convertTuplesToLists=%s convertSetsToLists=%s]' % tuple(sopts)) + (
+                    ' [context chain without #finalize]' if sbare else ''),
+                dict(part='sweep', fn=c['fn'], text=c['text'], mode=c['mode'], bare=sbare, opts=sopts, data=pyrepr(sdata)))
         if len(res.failures) >= 8:
             break
     fns = {k for k in world.reg}
